@@ -117,6 +117,10 @@ func (c *Ctx) lowerBound(in ssa.Instruction, v ssa.Value, d int) (int64, bool) {
 		// had x been shorter, that access would have panicked first
 		if b, isB := call.Call.Value.(*ssa.Builtin); isB && b.Name() == "len" && len(call.Call.Args) == 1 {
 			x := call.Call.Args[0]
+			// a slice this function has appended g elements to is at least g long
+			if g, ok := sliceGrowth(x, 0, map[ssa.Value]bool{}); ok && g > 0 && g < 1<<39 {
+				take(g)
+			}
 			if fn := in.Parent(); fn != nil {
 				eachInstr(fn, func(other ssa.Instruction) {
 					ia, ok := other.(*ssa.IndexAddr)
